@@ -38,7 +38,9 @@ def run_case(case: dict[str, Any]) -> dict[str, Any]:  # noqa: C901, PLR0912
         "realizations": {"weights": case.get("weights") or [1.0] * r_n},
         "gradient": {"number_of_perturbations": p_n, "perturbation_magnitudes": case["magnitudes"],
                      "perturbation_types": case["types"], "boundary_types": case["boundary"]},
-        "samplers": [{"method": f"design{k}/fixed"} for k in range(case.get("S", 1))],
+        # (a sampler configured as 'shared' hands out the same samples for every realization - that of realization 0 here -, what
+        # one sampler is configured to do says nothing about the others)
+        "samplers": [{"method": f"design{k}/fixed", "shared": bool((case.get("shared") or [False] * 9)[k])} for k in range(case.get("S", 1))],
     }
     if case.get("assign") is not None:
         cfg["gradient"]["samplers"] = case["assign"]
@@ -51,6 +53,9 @@ def run_case(case: dict[str, Any]) -> dict[str, Any]:  # noqa: C901, PLR0912
         transforms = OptModelTransforms(variables=VariableScaler(scale, np.array(case["offsets"], dtype=np.float64)))
     s_n = case.get("S", 1)
     all_samples = np.array(case["samples"], dtype=np.float64).reshape(s_n, r_n, p_n, n)
+    for k in range(s_n):
+        if (case.get("shared") or [False] * 9)[k]:
+            all_samples[k] = all_samples[k][:1]
     manager = PluginManager()
     for k in range(s_n):
         manager.add_plugin("sampler", f"design{k}", DesignSamplerPlugin([all_samples[k]], nocopy=bool(case.get("nocopy"))))
@@ -189,7 +194,7 @@ def hypothesis_shard(item: dict[str, Any]) -> Collector:
             if not any(weights):
                 weights[0] = 1.0
         return {"weights": weights, "vtypes": [draw(st.sampled_from([1, 2])) for _ in range(n)] if draw(st.integers(0, 3)) == 0 else None,
-                "split": draw(st.sampled_from([None, None, "same", "near", "far"])), "S": s_n, "assign": assign, "nocopy": draw(st.booleans()), "n": n, "R": r_n, "P": p_n, "x": x, "lb": lb, "ub": ub, "types": types, "magnitudes": mags,
+                "split": draw(st.sampled_from([None, None, "same", "near", "far"])), "shared": [draw(st.integers(0, 2)) == 0 for _ in range(s_n)], "S": s_n, "assign": assign, "nocopy": draw(st.booleans()), "n": n, "R": r_n, "P": p_n, "x": x, "lb": lb, "ub": ub, "types": types, "magnitudes": mags,
                 "boundary": [draw(st.integers(1, 3)) for _ in range(n)], "samples": samples,
                 "scales": [draw(st.sampled_from([0.5, 2.0, 10.0, 3.0])) for _ in range(n)] if scaled else None,
                 "offsets": [draw(st.sampled_from([0.0, 1.0, -2.5])) for _ in range(n)] if scaled else None}
